@@ -17,6 +17,14 @@ def invariants(prefixes):
     return inv
 
 
+def sig_detail(name, scen_events, at):
+    """extra words for the signature of a violation found on a cluster trace (known findings are matched on it)"""
+    if name == "C15_NoLasso":
+        acts = sorted({e.get("mdact", "") or e.get("act", "") for e in scen_events if e.get("ev") == "Evict" and e.get("ok") == 1})
+        return "evictions=" + "+".join(acts)
+    return ""
+
+
 def run_profiles(ctx, binary, plan, procs=8):
     """plan: list of (profile, n). Runs `procs` harness processes in parallel; returns trace paths."""
     jobs = []
@@ -81,7 +89,7 @@ def run_stage(ctx, prefixes, plan, nontrivial_fn=None, procs=8):
     trace = merge(ctx, traces, "cluster-trace.ndjson")
     stats = account(ctx, trace, nontrivial_fn)
     ctx.stage("cluster-real-runs", plan=plan, **stats)
-    vlib.validate_traces(ctx, MODULE, trace, invariants(prefixes), tuple(prefixes), timeout=3000, heap="12g")
+    vlib.validate_traces(ctx, MODULE, trace, invariants(prefixes), tuple(prefixes), timeout=3000, heap="12g", sig_detail=sig_detail)
     return stats
 
 
@@ -107,4 +115,4 @@ def replay_stage(ctx, obj, prefixes):
         trace = os.path.join(ctx.scratch, "replay-trace.ndjson")
         vlib.run_harness(binary, ["-in", scen, "-out", trace], timeout=600)
     account(ctx, trace)
-    vlib.validate_traces(ctx, MODULE, trace, invariants(prefixes), tuple(prefixes), timeout=600, heap="4g")
+    vlib.validate_traces(ctx, MODULE, trace, invariants(prefixes), tuple(prefixes), timeout=600, heap="4g", sig_detail=sig_detail)
